@@ -81,8 +81,17 @@ def get(cls, *a, **k):
 class CEnum(Item):
     PREFIX = "K"
     def _init(self, tag, count, dflt=0, discs=None):
-        self.tag = tag; self.count = count; self.dflt = dflt; self.portable = (tag == "u8"); self.default = True; self.discs = discs
-    def spec(self): return "cenum(%s,%d,d%d%s)" % (self.tag, self.count, self.dflt, "" if self.discs is None else ";=" + ".".join(str(x) for x in self.discs))
+        self.tag = tag; self.count = count; self.dflt = dflt; self.portable = (tag == "u8"); self.default = True
+        # discs may name only some variants (None = implicit: previous + 1, as in Rust)
+        self.written = discs
+        if discs is not None:
+            eff = []; nxt = 0
+            for x in discs:
+                v = nxt if x is None else x
+                eff.append(v); nxt = v + 1
+            discs = eff
+        self.discs = discs
+    def spec(self): return "cenum(%s,%d,d%d%s)" % (self.tag, self.count, self.dflt, "" if self.discs is None else ";=" + ".".join(("_" if w is None else "") + str(x) for x, w in zip(self.discs, self.written)))
 
 class SStruct(Item):
     PREFIX = "P"
@@ -157,7 +166,7 @@ def emit_cenum(it):
     vs = []
     dv = it.discs if it.discs is not None else list(range(it.count))
     for i in range(it.count):
-        vs.append(("#[default] " if i == it.dflt else "") + vname(i) + ("" if it.discs is None else " = %d" % it.discs[i]))
+        vs.append(("#[default] " if i == it.dflt else "") + vname(i) + ("" if (it.discs is None or it.written[i] is None) else " = %d" % it.discs[i]))
     arms = "".join("            %d => %s::%s,\n" % (dv[i], it.ident, vname(i)) for i in range(it.count))
     discs_rs = "None" if it.discs is None else "Some(vec![%s])" % ", ".join(str(x) for x in it.discs)
     valid_rs = " || ".join("raw as u128 == %d" % x for x in dv) if it.discs is not None else "(raw as usize) < %d" % it.count
@@ -353,7 +362,8 @@ impl Node for {it.ident} {{
 
 def emit_uenum(it):
     vs = [vname(i) + variant_decl(form, fs) + ("" if it.discs is None else " = %d" % it.discs[i]) for i, (form, fs) in enumerate(it.variants)]
-    vs = [("#[default] " if i == it.dflt else "") + v for i, v in enumerate(vs)]
+    # (another attribute in front of #[default] when the default variant is not the first one)
+    vs = [(("/// the default variant\n    #[default] " if it.dflt else "#[default] ") if i == it.dflt else "") + v for i, v in enumerate(vs)]
     vdesc = ", ".join("vec![%s]" % ", ".join(desc_of(f) for f in fs) for _, fs in it.variants)
     read_arms = walk_arms = apply_arms = probe_arms = emp_arms = ""
     for i, (form, fs) in enumerate(it.variants):
@@ -432,7 +442,8 @@ def catalog(thorough):
     K = [get(CEnum, "u8", 2, 1), get(CEnum, "u8", 3, 0), get(CEnum, "u16", 3, 2), get(CEnum, "u32", 2, 0), get(CEnum, "u8", 1, 0),
          get(CEnum, "u8", 256, 255), get(CEnum, "u8", 255, 0),   # as many variants as the tag can count, and one less
          get(CEnum, "u8", 3, 1, [1, 5, 9]), get(CEnum, "u16", 2, 0, [7, 300]),   # explicit discriminants
-         get(CEnum, "u8", 3, 0, [9, 5, 1]), get(CEnum, "u8", 4, 2, [3, 200, 7, 0])]   # ... not in ascending order
+         get(CEnum, "u8", 3, 0, [9, 5, 1]), get(CEnum, "u8", 4, 2, [3, 200, 7, 0]),   # ... not in ascending order
+         get(CEnum, "u8", 3, 2, [1, None, None]), get(CEnum, "u8", 3, 1, [None, 5, None])]   # ... only some variants numbered
     if thorough: K += [get(CEnum, "u16", 4, 1), get(CEnum, "u32", 4, 3)]
     for k in K: add(k)
     K2, K3, K16, K32 = K[0], K[1], K[2], K[3]
@@ -546,6 +557,12 @@ def catalog(thorough):
     # a tail vector of composite elements whose SIZE is not a multiple of the struct's ALIGN (the struct's extent
     # is the rounded-up extent of its tail)
     add(get(UStruct, [U64, Vec(Arr(U32, 2), U32)])); add(get(UStruct, [U32, Vec(Arr(U8, 3), U8)])); add(get(UStruct, [U64, Vec(P_u8u32, U16)]))
+    # a zero-sized but ALIGNED field in the middle of a field list (every statement of the layout rule must pad for it)
+    add(get(UStruct, [U8, Arr(U32, 0), U8, V88])); add(get(UStruct, [U8, Arr(U64, 0), U8, Str(U8)]))
+    add(get(UEnum, "u8", [("unit", []), ("tuple", [U8, Arr(U64, 0), U8, U32]), ("named", [U8, Arr(U32, 0), V88])], 0))
+    add(get(SStruct, [U8, Arr(U32, 0), U8]))
+    # three sized fields in front of the tail, a middle field that starts off the next field's alignment
+    add(get(UStruct, [U16, Arr(U16, 2), U32, V88])); add(get(UStruct, [U8, Arr(U8, 2), U16, V88])); add(get(UStruct, [U8, U16, U32, V88]))
     # unsized enums declared with explicit discriminants (ignored by the macro for unsized enums: the tag is the index):
     # values at or above the variant count, and a permutation of 0..n
     add(get(UEnum, "u8", [("named", [U32, Vec(U8, U16)]), ("tuple", [U16]), ("unit", [])], 2, False, [5, 1, 9]))
